@@ -111,6 +111,8 @@ func (p *proxy) call(ctx erpc.UnknownCallCtx) (interface{}, *erpc.Status) {
 		label.RealIP = goutil.BytesToString(realIPBytes)
 	}
 	label.ServiceMethod = ctx.ServiceMethod()
+	// the body is forwarded as raw bytes: tell the backend which codec they are in
+	settings = append(settings, erpc.WithBodyCodec(ctx.GetBodyCodec()))
 	callcmd := p.callForwarder(&label).Call(label.ServiceMethod, ctx.InputBodyBytes(), &result, settings...)
 	// there is no reply metadata if the backend call failed before a reply arrived
 	if inputMeta := callcmd.InputMeta(); inputMeta != nil {
@@ -142,6 +144,8 @@ func (p *proxy) push(ctx erpc.UnknownPushCtx) *erpc.Status {
 		label.RealIP = goutil.BytesToString(realIPBytes)
 	}
 	label.ServiceMethod = ctx.ServiceMethod()
+	// the body is forwarded as raw bytes: tell the backend which codec they are in
+	settings = append(settings, erpc.WithBodyCodec(ctx.GetBodyCodec()))
 	stat := p.pushForwarder(&label).Push(label.ServiceMethod, ctx.InputBodyBytes(), settings...)
 	if !stat.OK() && stat.Code() < 200 && stat.Code() > 99 {
 		// build a new status: stat may be one of the framework's shared statuses
